@@ -229,3 +229,267 @@ def mutate(rng, b, alphabet):
         elif b:
             b[min(pos, len(b) - 1)] = rng.choice(alphabet)
     return bytes(b)
+
+
+# ---------------------------------------------------------------------------
+# fabricated snapshots: files ADDED or REWRITTEN (ops "+put <relpath> <hex>" / "+ln <relpath> <target>"),
+# each scenario with the observable result its source code promises (evaluated on the dump by checks/c18.py)
+# ---------------------------------------------------------------------------
+
+def put(path, text):
+    if isinstance(text, str):
+        text = text.encode()
+    return "+put %s %s" % (path, text.hex() or "-")
+
+
+def ln(path, target):
+    return "+ln %s %s" % (path, target)
+
+
+def nofile_info(arch):
+    return put("proc/hwloc-nofile-info", "OSName: Linux\nOSRelease: 5.0.0-verif\nOSVersion: #1\nHostName: verif\nArchitecture: %s\nFallbackNbProcessors: 3\nPageSize: 4096\n" % arch)
+
+
+IO_ON = ["filter 16 0", "filter 17 0", "filter 18 0"]
+
+
+def block_dev(name, major_minor, size_sectors, sector, udev_lines, devtype=None, dev_file=True):
+    d = "sys/devices/platform/verifhost/block/" + name
+    ops = [ln("sys/class/block/" + name, "../../devices/platform/verifhost/block/" + name),
+           put(d + "/size", "%d\n" % size_sectors), put(d + "/queue/hw_sector_size", "%d\n" % sector)]
+    if dev_file:
+        ops.append(put(d + "/dev", major_minor + "\n"))
+    if devtype:
+        ops.append(put(d + "/device/devtype", devtype + "\n"))
+    if udev_lines is not None:
+        ops.append(put("run/udev/data/b" + major_minor, "".join(l + "\n" for l in udev_lines)))
+    return ops
+
+
+def knl_layout(cluster, memory, nodes, dist, cache_size=17179869184, hwdata=True):
+    """nodes: list of cpumap texts; dist: matrix rows as lists (None = no distance files)."""
+    ops = []
+    for i, cm in enumerate(nodes):
+        nd = "sys/devices/system/node/node%d" % i
+        ops.append(put(nd + "/cpumap", cm + "\n"))
+        ops.append(put(nd + "/meminfo", "Node %d MemTotal:       %d kB\nNode %d MemFree:        1024 kB\n" % (i, (16 if cm.strip("0,") else 4) * 1024 * 1024, i)))
+        if dist:
+            ops.append(put(nd + "/distance", " ".join(map(str, dist[i])) + "\n"))
+    ops.append(put("sys/devices/system/node/online", "0-%d\n" % (len(nodes) - 1) if len(nodes) > 1 else "0\n"))
+    if hwdata:
+        txt = "version: 2\ncache_size: %d\nassociativity: 1\ninclusiveness: 1\nline_size: 64\ncluster_mode: %s\nmemory_mode: %s\n" % (cache_size, cluster, memory)
+        ops.append(put("var/run/hwloc/knl_memoryside_cache", txt))
+    return ops
+
+
+def pci_config(bridge=None, pcie=None):
+    """256-byte PCI config space: bridge=(primary, secondary, subordinate) -> type-1 header; pcie=(gen, lanes) ->
+    a capability list holding a PCI Express capability with that link status."""
+    c = bytearray(256)
+    if bridge:
+        c[0x0a], c[0x0b], c[0x0e] = 0x04, 0x06, 0x01
+        c[0x18], c[0x19], c[0x1a] = bridge
+    c[0x08] = 0x07    # revision
+    if pcie:
+        c[0x06] |= 0x10
+        c[0x34] = 0x40
+        c[0x40], c[0x41] = 0x01, 0x50          # a power-management capability first
+        c[0x50], c[0x51] = 0x10, 0x00          # PCI Express
+        sta = (pcie[0] & 0xf) | ((pcie[1] & 0x3f) << 4)
+        c[0x62], c[0x63] = sta & 0xff, sta >> 8
+    return bytes(c)
+
+
+def pci_dev(busid, cls, vendor=0x8086, device=0x1234, config=None, extra=None):
+    d = "sys/bus/pci/devices/%s/" % busid
+    ops = [put(d + "class", "0x%06x\n" % cls), put(d + "vendor", "0x%04x\n" % vendor), put(d + "device", "0x%04x\n" % device),
+           put(d + "subsystem_vendor", "0x1028\n"), put(d + "subsystem_device", "0x0001\n")]
+    if config is not None:
+        ops.append(put(d + "config", config))
+    for k, v in (extra or {}).items():
+        ops.append(put(d + k, v))
+    return ops
+
+
+def pci_tree():
+    ops = []
+    ops += pci_dev("0000:00:01.0", 0x060400, device=0x0101, config=pci_config(bridge=(0, 1, 2)), extra={"local_cpus": "1\n"})
+    ops += pci_dev("0000:01:00.0", 0x020000, device=0x1234, config=pci_config(pcie=(3, 8)))
+    ops += pci_dev("0000:02:00.0", 0x030000, vendor=0x10de, device=0x2222, extra={"current_link_speed": "8.0 GT/s PCIe\n", "current_link_width": "16\n"})
+    ops += pci_dev("0000:00:02.0", 0x060400, device=0x0102, config=pci_config(bridge=(0, 0, 0)))      # invalid bus numbers: ignored
+    ops += pci_dev("0000:00:03.0", 0x060400, device=0x0103, config=pci_config())                       # bridge class, type-0 header: a plain device
+    ops += pci_dev("00000:01:00.0", 0x020000, device=0x9999)                                          # same bus id as 0000:01:00.0: ignored
+    ops += pci_dev("notabusid", 0x020000)
+    ops += [ln("sys/class/net/eth9", "../../devices/pci0000:00/0000:00:01.0/0000:01:00.0/net/eth9"),
+            put("sys/devices/pci0000:00/0000:00:01.0/0000:01:00.0/net/eth9/address", "02:00:00:00:00:09\n")]
+    return ops
+
+
+def scenarios():
+    """[(name, base snapshot (file name without .tar.bz2), ops, env additions, filter lines, expectation)]
+    expectation keys: load (0 | 'any'), objs (each pattern must match an object), none (patterns matching nothing),
+    count ([type, n]), rootinf ({name: value} infos of the Machine), kinds_n."""
+    S = []
+    half0, half1, zero = "00000000,ffffffff", "ffffffff,00000000", "00000000,00000000"
+    # --- OS devices of classes no bundled snapshot has
+    S.append(("bxi", "2arm-2c", [ln("sys/class/bxi/bxi0", "../../devices/platform/verifbxi/bxi0"), put("sys/devices/platform/verifbxi/bxi0/uuid", "0123-abcd\n"),
+                                  ln("sys/class/bxi/bxi1", "../../devices/platform/verifbxi/bxi1"), put("sys/devices/platform/verifbxi/bxi1/other", "x\n")],
+              {}, IO_ON, {"load": 0, "objs": [{"ty": 18, "nm": "bxi0", "st": "BXI", "inf": {"BXIUUID": "0123-abcd"}, "at": "ostypes:16"},
+                                              {"ty": 18, "nm": "bxi1", "st": "BXI", "inf": {}}], "count": [[18, 2]]}))
+    S.append(("bxi-filtered", "2arm-2c", [ln("sys/class/bxi/bxi0", "../../devices/platform/verifbxi/bxi0"), put("sys/devices/platform/verifbxi/bxi0/uuid", "u\n")],
+              {}, [], {"load": 0, "count": [[18, 0]]}))
+    cx = "sys/devices/platform/verifcxl/"
+    S.append(("cxlmem", "2arm-2c", [ln("sys/bus/cxl/devices/mem0", "../../../devices/platform/verifcxl/mem0"), put(cx + "mem0/ram/size", "0x40000000\n"),
+                                     put(cx + "mem0/pmem/size", "0x80000000\n"), put(cx + "mem0/serial", "0xdeadbeef\n"),
+                                     ln("sys/bus/cxl/devices/mem1", "../../../devices/platform/verifcxl/mem1"), put(cx + "mem1/ram/size", "0\n"),
+                                     ln("sys/bus/cxl/devices/root0", "../../../devices/platform/verifcxl/root0"), put(cx + "root0/x", "1\n")],
+              {}, IO_ON, {"load": 0, "objs": [{"ty": 18, "nm": "mem0", "st": "CXLMem", "inf": {"CXLRAMSize": "1048576KiB", "CXLPMEMSize": "2097152KiB", "SerialNumber": "0xdeadbeef"}},
+                                              {"ty": 18, "nm": "mem1", "st": "CXLMem", "inf": {}}],
+                          "none": [{"ty": 18, "nm": "root0"}], "count": [[18, 2]]}))
+    blk = []
+    blk += block_dev("sdv", "8:400", 2000000, 512, ["E:ID_VENDOR=ATA", "E:ID_MODEL=WDC_WD10", "E:ID_REVISION=1.0", "E:ID_SERIAL_SHORT=SER1", "E:ID_TYPE=disk"])
+    blk += block_dev("sdw", "8:416", 4000, 4096, ["E:ID_VENDOR=VerifVendor", "E:ID_MODEL=ST1000", "E:ID_TYPE=tape"])
+    blk += block_dev("sdx", "8:432", 8, 512, ["E:ID_MODEL=SAMSUNG_SSD", "E:ID_TYPE=cd"])
+    blk += block_dev("sdy", "8:448", 8, 512, ["E:ID_MODEL=SanDisk_x", "E:OTHER=1"])
+    blk += block_dev("sdz", "8:464", 8, 512, ["E:ID_MODEL=TOSHIBA_y", "E:ID_TYPE=generic"])
+    blk += block_dev("pmem7", "259:7", 16, 512, None, devtype="nd_namespace_pmem")
+    blk += block_dev("nodev", "8:480", 16, 512, None, dev_file=False)
+    blk += block_dev("baddev", "garbage", 16, 512, None)
+    S.append(("block", "2arm-2c", blk, {}, IO_ON, {"load": 0, "objs": [
+        {"ty": 18, "nm": "sdv", "st": "Disk", "inf": {"Size": "1000000KiB", "SectorSize": "512", "LinuxDeviceID": "8:400", "Vendor": "Western Digital", "Model": "WDC_WD10", "Revision": "1.0", "SerialNumber": "SER1"}},
+        {"ty": 18, "nm": "sdw", "st": "Tape", "inf": {"Size": "2000KiB", "SectorSize": "4096", "Vendor": "VerifVendor", "Model": "ST1000"}},
+        {"ty": 18, "nm": "sdx", "st": "Removable Media Device", "inf": {"Vendor": "Samsung"}},
+        {"ty": 18, "nm": "sdy", "st": None, "inf": {"Vendor": "SanDisk"}},
+        {"ty": 18, "nm": "sdz", "st": None, "inf": {"Vendor": "Toshiba"}},
+        {"ty": 18, "nm": "pmem7", "st": "NVM", "inf": {"LinuxDeviceID": "259:7"}},
+        {"ty": 18, "nm": "nodev", "st": None, "inf": {"Size": "8KiB"}, "noinf": ["LinuxDeviceID"]},
+        {"ty": 18, "nm": "baddev", "st": None, "noinf": ["LinuxDeviceID"]}], "count": [[18, 8]]}))
+    # --- platform information
+    soc = [put("sys/bus/soc/devices/soc0/soc_id", "jep106:0426:0001\n"), put("sys/bus/soc/devices/soc0/family", "VerifFamily\n"),
+           put("sys/bus/soc/devices/soc0/revision", "r2p1\n"), put("sys/bus/soc/devices/soc3/soc_id", "\n"), put("sys/bus/soc/devices/notasoc/soc_id", "x\n")]
+    S.append(("soc-info", "2arm-2c", soc, {}, [], {"load": 0, "rootinf": {"SoC0ID": "jep106:0426:0001", "SoC0Family": "VerifFamily", "SoC0Revision": "r2p1"}}))   # (an soc_id file holding only "\n" yields an empty-valued SoC3ID info: the emptiness test precedes the newline strip)
+    S.append(("soc-homogeneous-quirk", "20em64t-hybrid-1p6c2t+2ca4co1t", [put("sys/bus/soc/devices/soc0/soc_id", "jep106:036b:0241\n")], {"_kinds": "1"}, [],
+              {"load": 0, "rootinf": {"SoC0ID": "jep106:036b:0241"}, "kinds_n": 1}))
+    S.append(("cpukinds-homogeneous-env", "20em64t-hybrid-1p6c2t+2ca4co1t", [], {"_kinds": "1", "HWLOC_CPUKINDS_HOMOGENEOUS": "1"}, [], {"load": 0, "kinds_n": 1}))
+    cpuinfo = "".join("processor\t\t: %d\nModel Name\t\t: Loongson-3A5000\nCPU Family\t\t: Loongson-64bit\nBogoMIPS\t\t: 5000.00\n\n" % i for i in range(2))
+    S.append(("loongarch-cpuinfo", "2arm-2c", [nofile_info("loongarch64"), put("proc/cpuinfo", cpuinfo)], {}, [],
+              {"load": 0, "objs": [{"ty": 1, "inf": {"CPUModel": "Loongson-3A5000", "CPUFamily": "Loongson-64bit"}}]}))
+    for tag, line, npu, model in (("k", "cpu\t\t: Fujitsu SPARC64 VIIIfx", 8, "SPARC64 VIIIfx"), ("fx10", "cpu\t\t: Fujitsu SPARC64 IXfx", 16, "SPARC64 IXfx"),
+                                  ("fx100", "cpu\t\t: FUJITSU SPARC64 XIfx", 34, "SPARC64 XIfx")):
+        S.append(("hardwired-" + tag, "2i386-2c-nohugepage", [nofile_info("s64fx"), put("proc/cpuinfo", line + "\nfpu\t\t: x\n")], {}, [],
+                  {"load": 0, "count": [[4, npu], [1, 1]], "objs": [{"ty": 1, "inf": {"CPUVendor": "Fujitsu", "CPUModel": model}}]}))
+    S.append(("hardwired-disabled", "2i386-2c-nohugepage", [nofile_info("s64fx"), put("proc/cpuinfo", "cpu\t\t: Fujitsu SPARC64 VIIIfx\n")], {"HWLOC_NO_HARDWIRED_TOPOLOGY": "1"}, [],
+              {"load": 0, "count": [[4, 2]]}))
+    # --- NUMA corner cases
+    S.append(("fake-numa-uniform", "memorysidecaches", [put("proc/cmdline", "BOOT_IMAGE=/vmlinuz numa=fake=2U quiet\n")], {}, ["filter 15 0"], {"load": 0, "count": [[15, 0]]}))
+    S.append(("fake-numa-split", "memorysidecaches", [put("proc/cmdline", "numa=fake=4\n")], {}, ["filter 15 0"], {"load": 0, "count": [[15, 0]]}))
+    S.append(("memcaches-kept", "memorysidecaches", [], {}, ["filter 15 0"], {"load": 0, "mincount": [[15, 1]]}))
+    S.append(("node-dir-junk", "16amd64-8n2c", [put("sys/devices/system/node/nodefoo/cpumap", "0\n"), put("sys/devices/system/node/node/cpumap", "0\n")], {}, [], {"load": 0, "count": [[14, 8]]}))
+    # --- a PCI tree on a snapshot that has none
+    pexp = {"load": 0, "objs": [{"ty": 16, "at": "bup:0,bdown:1"}, {"ty": 16, "at": "dev:1,func:0,class:1540,vendor:32902,device:257,ddom:0,dsec:1,dsub:2"},
+                                {"ty": 17, "at": "dom:0,bus:1,dev:0,func:0,class:512,vendor:32902,device:"},
+                                {"ty": 17, "at": "dom:0,bus:2,dev:0,func:0,class:768,vendor:4318,device:8738"}, {"ty": 17, "at": "dev:3,func:0,class:1540"},
+                                {"ty": 18, "nm": "eth9", "inf": {"Address": "02:00:00:00:00:09"}}],
+            "none": [{"ty": 16, "at": "device:258"}], "count": [[16, 2], [17, 3], [18, 1]]}
+    S.append(("pci-tree", "2arm-2c", pci_tree(), {}, IO_ON, pexp))
+    S.append(("pci-tree-hide-errors-0", "2arm-2c", pci_tree(), {"HWLOC_HIDE_ERRORS": "0"}, IO_ON, pexp))
+    S.append(("pci-fake-quirk", "2arm-2c", pci_tree(), {"HWLOC_PCI_LOCALITY_QUIRK_FAKE": "1"}, IO_ON, {"load": 0, "objs": [{"ty": 16, "at": "bup:0,bdown:1", "parccs": 2}]}))
+    S.append(("pci-forced-locality", "2arm-2c", pci_tree(), {"HWLOC_PCI_LOCALITY": "nonsense;0001:00-ff 0x1;0000:00-02 0x2"}, IO_ON, {"load": 0, "objs": [{"ty": 16, "at": "bup:0,bdown:1", "parccs": 2}]}))
+    cray = pci_dev("0000:d0:00.0", 0x020000) + pci_dev("0000:c5:00.0", 0x020000, device=0x5555) + pci_dev("0001:d0:00.0", 0x020000, device=0x6666) + \
+        [put("sys/devices/virtual/dmi/id/board_name", "HPE CRAY EX235A\n"), put("sys/class/dmi/id/board_name", "HPE CRAY EX235A\n")]
+    S.append(("pci-cray-ex235a-quirk", "64amd64-4s2n4ca2co", cray, {}, IO_ON,
+              {"load": 0, "rootinf": {"DMIBoardName": "HPE CRAY EX235A"},
+               "objs": [{"ty": 16, "at": "ddom:0,dsec:208", "parccs": 0xff}, {"ty": 16, "at": "ddom:0,dsec:197", "parccs": 0xff << 56}]}))   # (the quirk sets CPUs 0-7+64-71 / 56-63+120-127; this machine has 64)
+    # --- x86 CPUID dumps
+    xb = "Intel-Nehalem-2xXeon-X5550"
+    S.append(("x86-junk-dirents", xb, [put("puabc", "x\n"), put("pu3x", "x\n"), put("README", "x\n")], {}, [], {"load": 0, "count": [[4, 16]]}))
+    # (an unusable dump directory is "ignored": the x86 backend then runs the native CPUID discovery of this machine)
+    S.append(("x86-summary-empty", xb, [put("hwloc-cpuid-info", "")], {}, [], {"load": "any"}))
+    S.append(("x86-summary-other-arch", xb, [put("hwloc-cpuid-info", "Architecture: arm\n")], {}, [], {"load": "any"}))
+    S.append(("x86-pu-comments-only", xb, [put("pu5", "# nothing here\n# at all\n")], {}, [], {"load": "any"}))
+    S.append(("x86-pu-garbage", xb, [put("pu0", "garbage\n1 2 3\n" + "f" * 300 + "\n")], {}, [], {"load": "any"}))
+    S.append(("x86-pu-empty", xb, [put("pu15", "")], {}, [], {"load": "any"}))
+    # --- x86 then Linux: NUMA nodes of sysfs do not match the ones x86 created: Linux must leave them alone
+    S.append(("x86+linux-node-mismatch", "64amd64-4p2n4ca2co", [put("fsroot/sys/devices/system/node/node9/cpumap", "00000000,00000001\n"),
+                                                               put("fsroot/sys/devices/system/node/node9/meminfo", "Node 9 MemTotal:       1024 kB\n")],
+              {"HWLOC_COMPONENTS": "x86,linux,stop", "HWLOC_X86_TOPOEXT_NUMANODES": "1"}, [], {"load": 0, "count": [[14, 8]], "none": [{"ty": 14, "os": 9}]}))
+    # --- hardwired topologies under type filters (instruction caches kept; cores and packages dropped)
+    fk = [nofile_info("s64fx"), put("proc/cpuinfo", "cpu\t\t: Fujitsu SPARC64 VIIIfx\n")]
+    S.append(("hardwired-k-icache", "2i386-2c-nohugepage", fk, {}, ["filter icache 0"], {"load": 0, "count": [[4, 8], [10, 8], [5, 8], [6, 1]]}))
+    S.append(("hardwired-k-nocore-nopackage", "2i386-2c-nohugepage", fk, {}, ["filter 3 1", "filter 1 1"], {"load": 0, "count": [[4, 8], [3, 0], [1, 0]]}))
+    f100 = [nofile_info("s64fx"), put("proc/cpuinfo", "cpu\t\t: FUJITSU SPARC64 XIfx\n")]
+    S.append(("hardwired-fx100-icache-nocore", "2i386-2c-nohugepage", f100, {}, ["filter icache 0", "filter 3 1", "filter 1 1"], {"load": 0, "count": [[4, 34], [10, 34], [3, 0]]}))
+    f10 = [nofile_info("s64fx"), put("proc/cpuinfo", "cpu\t\t: Fujitsu SPARC64 IXfx\n")]
+    S.append(("hardwired-fx10-icache-nocore", "2i386-2c-nohugepage", f10, {}, ["filter icache 0", "filter 3 1", "filter 1 1"], {"load": 0, "count": [[4, 16], [10, 16], [3, 0]]}))
+    S.append(("hardwired-not-sparc-line", "2i386-2c-nohugepage", [nofile_info("s64fx"), put("proc/cpuinfo", "processor\t: 0\n")], {}, [], {"load": 0, "count": [[4, 2]]}))
+    S.append(("hardwired-unknown-model", "2i386-2c-nohugepage", [nofile_info("s64fx"), put("proc/cpuinfo", "cpu\t\t: Fujitsu SPARC64 Zfx\n")], {}, [], {"load": 0, "count": [[4, 2]]}))
+    # --- CXL memory exposed as a kmem DAX NUMA node, two interleaved devices
+    pl = "sys/devices/platform/ACPI0017:00/root0/"
+    cxldax = [ln("sys/bus/dax/devices/dax7.0", "../../../devices/platform/ACPI0017:00/root0/decoder0.0/region3/dax_region3/dax7.0"),
+              put(pl + "decoder0.0/region3/dax_region3/dax7.0/target_node", "1\n"), put("sys/bus/dax/drivers/kmem/dax7.0", "x\n"),
+              put("sys/bus/cxl/devices/region3/target0", "decoder5.0\n"), put("sys/bus/cxl/devices/region3/target1", "decoder6.0\n"),
+              ln("sys/bus/cxl/devices/decoder5.0", "../../../devices/platform/ACPI0017:00/root0/port1/endpoint5/decoder5.0"),
+              ln("sys/bus/cxl/devices/decoder6.0", "../../../devices/platform/ACPI0017:00/root0/port2/endpoint6/decoder6.0"),
+              ln("sys/bus/cxl/devices/endpoint5/uport", "../../../../pci0000:34/0000:34:00.0/0000:35:00.0/mem0"),
+              ln("sys/bus/cxl/devices/endpoint6/uport", "../../../../pci0000:34/0000:34:01.0/0000:36:00.0/mem1"),
+              ln("sys/bus/dax/devices/dax8.0", "../../../devices/platform/e820_pmem/ndbus0/region0/dax8.0/dax8.0"),
+              put("sys/devices/platform/e820_pmem/ndbus0/region0/dax8.0/dax8.0/target_node", "2\n"), put("sys/bus/dax/drivers/kmem/dax8.0", "x\n"),
+              ln("sys/bus/dax/devices/dax9.0", "../../../devices/platform/hmem.0/dax9.0"), put("sys/devices/platform/hmem.0/dax9.0/target_node", "-1\n"), put("sys/bus/dax/drivers/kmem/dax9.0", "x\n")]
+    S.append(("cxl-dax-kmem", "16amd64-8n2c", cxldax, {}, [], {"load": 0, "objs": [
+        {"ty": 14, "os": 1, "inf": {"DAXDevice": "dax7.0", "DAXType": "SPM", "CXLDeviceInterleaveWays": "2", "CXLDevice": "0000:35:00.0,0000:36:00.0", "DAXParent": "ACPI0017:00/root0/decoder0.0/region3/dax_region3"}},
+        {"ty": 14, "os": 2, "inf": {"DAXDevice": "dax8.0", "DAXType": "NVM", "DAXParent": "e820_pmem/ndbus0/region0"}, "noinf": ["CXLDevice"]}],
+        "none": [{"ty": 14, "inf": {"DAXDevice": "dax9.0"}}]}))
+    # --- old-kernel class devices (directory + "device" link), class device near a NUMA node
+    oldnet = pci_tree() + [put("sys/class/net/eth8/address", "02:00:00:00:00:08\n"), ln("sys/class/net/eth8/device", "../../../devices/pci0000:00/0000:00:01.0/0000:02:00.0"),
+                           ln("sys/class/net/eth7", "../../devices/platform/verifnic/net/eth7"), put("sys/devices/platform/verifnic/net/eth7/address", "02:00:00:00:00:07\n"),
+                           put("sys/devices/platform/verifnic/net/eth7/device/numa_node", "0\n"),
+                           ln("sys/class/net/lo", "../../devices/virtual/net/lo"), put("sys/devices/virtual/net/lo/address", "00:00:00:00:00:00\n"),
+                           ln("sys/class/net/usb0", "../../devices/pci0000:00/0000:00:01.0/usb1/1-1/net/usb0"), put("sys/devices/pci0000:00/0000:00:01.0/usb1/1-1/net/usb0/address", "x\n")]
+    S.append(("osdev-old-kernel-and-numa", "2i386-2c-nohugepage", oldnet, {}, IO_ON,
+              {"load": 0, "objs": [{"ty": 18, "nm": "eth8", "inf": {"Address": "02:00:00:00:00:08"}}, {"ty": 18, "nm": "eth7", "inf": {"Address": "02:00:00:00:00:07"}}, {"ty": 18, "nm": "eth9"}],
+               "none": [{"ty": 18, "nm": "lo"}], "count": [[18, 4]]}))   # (network devices behind USB are kept, virtual ones are not)
+    # --- more HWLOC_PCI_LOCALITY forms and every bus range of the Cray quirk
+    S.append(("pci-forced-locality-forms", "2arm-2c", pci_tree(), {"HWLOC_PCI_LOCALITY": "0000:05 0x1;0000:00 0x2;0001 0x1"}, IO_ON, {"load": 0, "objs": [{"ty": 16, "at": "bup:0,bdown:1", "parccs": 2}]}))
+    S.append(("pci-forced-locality-domain-form", "2arm-2c", pci_tree(), {"HWLOC_PCI_LOCALITY": "0000 0x2"}, IO_ON, {"load": 0, "objs": [{"ty": 16, "at": "bup:0,bdown:1", "parccs": 2}]}))
+    crayall, crayexp = [put("sys/devices/virtual/dmi/id/board_name", "HPE CRAY EX235A\n"), put("sys/class/dmi/id/board_name", "HPE CRAY EX235A\n")], []
+    for k, (bus, lo) in enumerate(((0xd1, 0), (0xd5, 8), (0xc9, 16), (0xcd, 24), (0xd9, 32), (0xdd, 40), (0xc1, 48), (0xc6, 56), (0xe0, None))):
+        crayall += pci_dev("0000:%02x:00.0" % bus, 0x020000, device=0x100 + k)
+        crayexp.append({"ty": 16, "at": "ddom:0,dsec:%d," % bus, "parccs": (0xff << lo) if lo is not None else (1 << 64) - 1})
+    S.append(("pci-cray-ex235a-all-ranges", "64amd64-4s2n4ca2co", crayall, {}, IO_ON, {"load": 0, "objs": crayexp}))
+    S.append(("x86-pu-dangling-symlink", xb, [ln("pu5", "/nonexistent/pu5")], {}, [], {"load": "any"}))
+    # --- KNL layouts built on the single-node A2A snapshot (hwdata in HWLOC_DUMPED_HWDATA_DIR=/var/run/hwloc)
+    knl = "64intel64-fakeKNL-A2A-cache"
+    kenv = {"HWLOC_DUMPED_HWDATA_DIR": "/var/run/hwloc"}
+    S.append(("knl-quadrant-flat", knl, knl_layout("Quadrant", "Flat", ["ffffffff,ffffffff", zero], [[10, 31], [31, 10]]), kenv, [],
+              {"load": 0, "rootinf": {"ClusterMode": "Quadrant", "MemoryMode": "Flat"}, "count": [[14, 2]], "objs": [{"ty": 14, "st": "MCDRAM"}]}))
+    S.append(("knl-snc2-cache", knl, knl_layout("SNC2", "Cache", [half0, half1], [[10, 21], [21, 10]]), kenv, [],
+              {"load": 0, "rootinf": {"ClusterMode": "SNC2", "MemoryMode": "Cache"}, "count": [[14, 2]]}))
+    d4 = [[10, 21, 31, 41], [21, 10, 41, 31], [31, 41, 10, 41], [41, 31, 41, 10]]
+    S.append(("knl-snc2-flat", knl, knl_layout("SNC2", "Flat", [half0, half1, zero, zero], d4), kenv, [],
+              {"load": 0, "rootinf": {"ClusterMode": "SNC2", "MemoryMode": "Flat"}, "count": [[14, 4]], "objs": [{"ty": 14, "st": "MCDRAM", "os": 2}, {"ty": 14, "st": "MCDRAM", "os": 3}]}))
+    S.append(("knl-snc2-hybrid-memcache", knl, knl_layout("SNC2", "Hybrid50", [half0, half1, zero, zero], d4), dict(kenv, HWLOC_KNL_MSCACHE_L3="0"), ["filter 15 0"],
+              {"load": 0, "rootinf": {"ClusterMode": "SNC2", "MemoryMode": "Hybrid50"}, "count": [[14, 4]], "mincount": [[15, 1]]}))
+    S.append(("knl-snc4-cache", knl, knl_layout("SNC4", "Cache", ["00000000,0000ffff", "00000000,ffff0000", "0000ffff,00000000", "ffff0000,00000000"],
+                                                [[10, 21, 21, 21], [21, 10, 21, 21], [21, 21, 10, 21], [21, 21, 21, 10]]), kenv, [],
+              {"load": 0, "rootinf": {"ClusterMode": "SNC4", "MemoryMode": "Cache"}, "count": [[14, 4]]}))
+    S.append(("knl-mode-mismatch", knl, knl_layout("SNC4", "Flat", [half0, half1], [[10, 21], [21, 10]]), kenv, [], {"load": 0, "count": [[14, 2]], "norootinf": []}))
+    S.append(("knl-bad-distances", knl, knl_layout("SNC2", "Flat", [half0, half1, zero, zero], [[10, 20, 20, 20], [20, 10, 20, 20], [20, 20, 10, 20], [20, 20, 20, 10]]), kenv, [],
+              {"load": 0, "count": [[14, 4]]}))
+    S.append(("knl-unknown-mode", knl, knl_layout("Octant", "Flat", ["ffffffff,ffffffff", zero], [[10, 31], [31, 10]]), kenv, [], {"load": 0, "count": [[14, 2]], "norootinf": ["ClusterMode"]}))
+    S.append(("knl-guess-no-hwdata", knl, knl_layout("", "", [half0, half1, zero, zero], d4, hwdata=False), {"HWLOC_DUMPED_HWDATA_DIR": "/nonexistent"}, [], {"load": 0, "count": [[14, 4]]}))
+    S.append(("knl-guess-quadrant-flat", knl, knl_layout("", "", ["ffffffff,ffffffff", zero], [[10, 31], [31, 10]], hwdata=False), {"HWLOC_DUMPED_HWDATA_DIR": "/nonexistent"}, [], {"load": 0, "count": [[14, 2]]}))
+    S.append(("knl-guess-cache-single-node", knl, [], {"HWLOC_DUMPED_HWDATA_DIR": "/nonexistent"}, [], {"load": 0, "count": [[14, 1]]}))
+    S.append(("knl-guess-snc4-8nodes", "64intel64-fakeKNL-SNC4-hybrid", [], {"HWLOC_DUMPED_HWDATA_DIR": "/nonexistent"}, ["filter 15 0"], {"load": 0, "count": [[14, 8]]}))
+    S.append(("knl-forced-fallback", "64intel64-fakeKNL-SNC4-hybrid", [], dict(kenv, HWLOC_KNL_HDH_FALLBACK="1"), [], {"load": 0, "count": [[14, 8]]}))
+    S.append(("knl-quirk-disabled", "64intel64-fakeKNL-SNC4-hybrid", [], dict(kenv, HWLOC_KNL_NUMA_QUIRK="0"), [], {"load": 0, "count": [[14, 8]], "norootinf": ["ClusterMode"]}))
+    for tag, cl, mm, nodes, dist in (("a2a-cache-2nodes", "All2All", "Cache", [half0, half1], [[10, 21], [21, 10]]), ("quadrant-flat-1node", "Quadrant", "Flat", ["ffffffff,ffffffff"], None),
+                                     ("snc2-cache-1node", "SNC2", "Cache", ["ffffffff,ffffffff"], None), ("snc2-flat-2nodes", "SNC2", "Flat", [half0, half1], [[10, 21], [21, 10]]),
+                                     ("snc4-cache-2nodes", "SNC4", "Cache", [half0, half1], [[10, 21], [21, 10]]), ("quadrant-badmemmode", "Quadrant", "Weird", ["ffffffff,ffffffff", zero], [[10, 31], [31, 10]])):
+        S.append(("knl-mismatch-" + tag, knl, knl_layout(cl, mm, nodes, dist), dict(kenv, HWLOC_HIDE_ERRORS="0"), [], {"load": 0, "count": [[14, len(nodes)]]}))
+    S.append(("knl-bad-hwdata-header", knl, [put("var/run/hwloc/knl_memoryside_cache", "garbage\n")], kenv, [], {"load": 0, "count": [[14, 1]]}))
+    return S
+
+
+# hostile contents written over an attribute file (robustness only: clean -1 or a well-formed topology)
+CORRUPT_CONTENTS = [b"", b"\n", b"garbage\n", b"-1\n", b"99999999999999999999\n", b"0-\n", b",\n", b"0-1023\n",
+                    b"ffffffff,ffffffff,ffffffff,ffffffff,ffffffff\n", b"0x\n", b"1 2 3 4 5 6 7 8 9 10 11 12 13 14 15 16 17 18 19 20\n", b"\x00\x01\x02\n", b"4294967295\n", b"3,1\n"]
